@@ -31,6 +31,9 @@ type c17Case struct {
 	Sites    int     `json:"sites"`
 	Distinct int     `json:"distinct"`
 	Ops      []c17Op `json:"ops"`
+	// OtherTmp: the profiler's TMPDIR lies on another file system than its home directory (a rename from one to the
+	// other fails; whatever the implementation does instead must be as safe)
+	OtherTmp bool `json:"other_tmp,omitempty"`
 }
 
 var c17Classes = []string{"zero", "first-line", "flush-1", "flush", "flush+1", "line", "site-before", "site-inside", "site-after", "all-but-one", "frac"}
@@ -38,11 +41,14 @@ var c17Classes = []string{"zero", "first-line", "flush-1", "flush", "flush+1", "
 func drawC17(t *rapid.T) c17Case {
 	c := c17Case{GOARCH: []string{"amd64", "amd64", "386"}[rapid.IntRange(0, 2).Draw(t, "goarch")], ListSeed: rapid.Uint64().Draw(t, "listSeed")}
 	c.Sites = rapid.IntRange(5, 200).Draw(t, "sites")
+	c.OtherTmp = rapid.IntRange(0, 2).Draw(t, "otherTmp") == 0
 	c.Distinct = rapid.IntRange(3, 60).Draw(t, "distinct")
 	n := rapid.IntRange(1, 4).Draw(t, "nops")
 	for i := 0; i < n; i++ {
 		op := c17Op{Class: c17Classes[rapid.IntRange(0, len(c17Classes)-1).Draw(t, "class")], Frac: rapid.IntRange(0, 999).Draw(t, "frac")}
-		switch rapid.IntRange(0, 9).Draw(t, "op") {
+		switch rapid.IntRange(0, 11).Draw(t, "op") {
+		case 10, 11:
+			op.Op = "run-diskfull"
 		case 0:
 			op.Op = "run-ok"
 		case 1, 2, 3:
@@ -64,6 +70,11 @@ func drawC17(t *rapid.T) c17Case {
 			default:
 				// writes to the cache fail beyond a size limit, and the tool does not notice (as the real one)
 				op.Op = "run-fsize"
+				if rapid.Bool().Draw(t, "diskFull") {
+					// the file system holding the cache is full after so many bytes (everything else, the temp
+					// directory included, has room)
+					op.Op = "run-diskfull"
+				}
 			}
 		default:
 			op.Op = "change-binary"
@@ -153,6 +164,10 @@ func checkC17(raw json.RawMessage) (ev.Result, error) {
 		return ev.Result{}, ev.Inconclusivef("bad case: %v", err)
 	}
 	rig, err := newProfRig(c.GOARCH)
+	otherTmp := false
+	if err == nil && c.OtherTmp {
+		otherTmp = rig.useOtherTmp()
+	}
 	if err != nil {
 		return ev.Result{}, ev.Inconclusivef("%v", err)
 	}
@@ -191,6 +206,9 @@ func checkC17(raw json.RawMessage) (ev.Result, error) {
 	}
 	fullDistinct := distinctNames(want)
 	res := ev.Result{Classes: []string{"binary:" + c.GOARCH}}
+	if otherTmp {
+		res.Classes = append(res.Classes, "temp-dir-on-another-file-system")
+	}
 	verify := func(what string, r *profRun) error {
 		if r.exit != 0 || r.signaled {
 			res.Classes = append(res.Classes, "run-after-fault-failed-with-error(ok)")
@@ -300,6 +318,31 @@ func checkC17(raw json.RawMessage) (ev.Result, error) {
 				return res, ev.Inconclusivef("%v", err)
 			}
 			res.Classes = append(res.Classes, "cache-write-fails-beyond-size-limit")
+			if err := verify(desc, r); err != nil {
+				return res, err
+			}
+		case "run-diskfull":
+			if rig.cacheMount == "" && !rig.mountCache() {
+				// mount(2) not permitted here: the fault cannot be produced
+				res.Classes = append(res.Classes, "diskfull-not-available")
+				break
+			}
+			if op.Frac%2 == 0 {
+				rig.clearCache() // a cold cache, so that the run really writes
+			}
+			n := int64(stopAt(text, op.Class, op.Frac)+65) &^ 4095
+			if n < 4096 {
+				n = 4096
+			}
+			if err := rig.resizeCache(n); err != nil {
+				return res, ev.Inconclusivef("remount: %v", err)
+			}
+			r, err := rig.run("ok", false)
+			rig.resizeCache(64 << 20)
+			if err != nil {
+				return res, ev.Inconclusivef("%v", err)
+			}
+			res.Classes = append(res.Classes, "cache-file-system-full")
 			if err := verify(desc, r); err != nil {
 				return res, err
 			}
